@@ -8,6 +8,10 @@ Leg R: every (tag, formula, nulls, rank reduction) case is realised with every c
        installed pandas / pyarrow offer for that tag, on the pandas materializer, narwhals on the
        same frame and narwhals on a pyarrow table, for the three outputs; names and cells are
        compared with the model and every observed cell must be a number.
+       Rows: the model addresses rows by position; a pandas frame also carries row LABELS, so the pandas frame is realised a
+       second time with labels that are not 0..n-1.  Known levels: formula `v + v:w` codes the column twice in one call, and the
+       specification every top-level call returns is applied again to the tail slice of the same data (recorded levels, recorded
+       structure, labels starting at 1, the null row inside) - TLC derives that second matrix too (ReuseNumeric, reuse_*).
 """
 from __future__ import annotations
 
@@ -113,6 +117,9 @@ def replay_case(case):
     for label, series in constructors(case["tag"], case):
         df = pandas.DataFrame({"v": series, "w": pandas.Series([float(x) for x in case["wvals"]])})
         forms = [("pandas", df, "pandas"), ("narwhals-pandas", df, "narwhals")]
+        # gamma: the same columns under row labels that are not the positions (the abstract frame has positions only; which labels a
+        # pandas frame carries must not reach the cells - indicator columns are built per factor and assembled afterwards)
+        forms.append(("pandas, row labels r0..r4", df.set_axis(matlib.index_for(len(df), "strings"), axis=0), "pandas"))
         try:
             forms.append(("narwhals-arrow", pa.Table.from_pandas(df, preserve_index=False), "narwhals"))
         except Exception:
@@ -123,7 +130,8 @@ def replay_case(case):
             # every output through the top-level function, then every output again through ONE materializer object (each call
             # after the first comes after a call for another output type: what one call encoded is not what the next may hand out)
             inst = None
-            for k, output in enumerate(OUTPUTS + ["sparse", "pandas", "numpy"]):
+            # (the relabelled frame goes through the top-level function only: the one-object round is about the outputs, not the rows)
+            for k, output in enumerate(OUTPUTS + (["sparse", "pandas", "numpy"] if "row labels" not in form else [])):
                 n += 1
                 base = {"values": case["vset"], "tag": case["tag"], "constructor": label, "dtype": str(series.dtype), "data": form, "output": output, "formula": case["formula"],
                         "nulls": case["nulls"], "full_rank": case["full_rank"]}
@@ -149,23 +157,44 @@ def replay_case(case):
                     bad.append({**base, "why": "column-names", "observed": names, "expected": case["names"]})
                 elif cells != case["cells"]:
                     bad.append({**base, "why": "cells", "observed": cells, "expected": case["cells"]})
+                if k >= len(OUTPUTS):
+                    continue
+                # the specification just fitted, applied to the tail slice of the same data: the levels are known beforehand now
+                n += 1
+                base = {**base, "entry": f"model_spec.get_model_matrix(rows {case['reuse_from']}.. of the same data)"}
+                try:
+                    lo = case["reuse_from"] - 1
+                    mm2 = mm.model_spec.get_model_matrix(data.slice(lo) if isinstance(data, pa.Table) else data.iloc[lo:])
+                except Exception as e:  # noqa
+                    bad.append({**base, "why": "exception", "observed": type(e).__name__ + ": " + str(e)[:140]})
+                    continue
+                if not all_numeric(mm2, output):
+                    bad.append({**base, "why": "non-numeric-cells",
+                                "observed": (str(numpy.asarray(mm2).tolist()) if output == "numpy" else str(mm2.dtypes.to_dict()) if output == "pandas" else str(mm2.dtype))[:200]})
+                    continue
+                names, cells, _, _, _ = matlib.alpha_matrix(mm2, output)
+                if names != case["reuse_names"]:
+                    bad.append({**base, "why": "column-names", "observed": names, "expected": case["reuse_names"]})
+                elif cells != case["reuse_cells"]:
+                    bad.append({**base, "why": "cells", "observed": cells, "expected": case["reuse_cells"]})
     return bad, n
 
 
 def run(ctx: Ctx) -> None:
     ctx.rule = ("22 dtype tags (text: object, str, string[python], string[pyarrow], Arrow string / large_string; categorical: category, ordered "
                 "category, Arrow dictionary; numeric: float32/64, int8/32/64, uint8/64, bool, nullable Int64/Float64/boolean, Arrow int64/double) x "
-                "5 formulas x nulls/no nulls x rank reduction x every available constructor x 3 data forms x 3 outputs; non-trivial = categorical "
-                "tag or null present")
+                "6 formulas (one coding the column twice) x nulls/no nulls x rank reduction x every available constructor x 4 data forms (pandas "
+                "also under non-positional row labels) x 3 outputs, each fitted specification applied again to the tail slice of the data; "
+                "non-trivial = categorical tag or null present")
     ctx.trusted = ["the constructor list (what pandas/pyarrow can build is probed at run time)", "numbers.Number / numpy.number as 'a number'", "TLC"]
     ctx.matchers = MATCHERS
     out = workdir("c08") / "cases.ndjson"
     out.unlink(missing_ok=True)
-    r = run_tlc("MC_Dtypes", "SPECIFICATION Spec\nCONSTANTS\n  Emit = TRUE\nINVARIANT AllNumeric\nINVARIANT DummyCoded\nINVARIANT EmitCase\n", tag="c08",
+    r = run_tlc("MC_Dtypes", "SPECIFICATION Spec\nCONSTANTS\n  Emit = TRUE\nINVARIANT AllNumeric\nINVARIANT DummyCoded\nINVARIANT ReuseNumeric\nINVARIANT EmitCase\n", tag="c08",
                 env={"OUT_FILE": str(out)}, timeout=1200)
     if r.violated:
         ctx.model_violation(r, "MC_Dtypes")
-    ctx.add_tlc(r, "dtype table: typing invariant + dummy coding + emission")
+    ctx.add_tlc(r, "dtype table: typing invariant + dummy coding + the fitted specification on a slice + emission")
     cases = read_emitted(out)
     out.unlink()
     if len(cases) != r.distinct:
